@@ -160,6 +160,17 @@ func (fx *fnExec) obligeG(g Term, name, kind string, goal Term, where, src strin
 	} else if fx.oblCount[name] > 1 {
 		full = fmt.Sprintf("%s#%d", name, fx.oblCount[name])
 	}
+	if kf := fx.v.knownFor(fx.name + "/" + full); kf != nil {
+		re, err := parseSpec(kf.Region)
+		if err != nil {
+			panic(vcErr("known_findings.json: region of %s: %v", kf.Obligation, err))
+		}
+		region := fx.evalBool(re, fx.entryEnv())
+		fx.obls = append(fx.obls, &Obligation{Name: fx.name + "/" + full + "[known-region]", Kind: kind, Func: fx.name, Mode: fx.mode,
+			Prefix: len(fx.assumps), NDecl: len(fx.decls), Goal: tImp(tAnd(g, region), goal), Where: where, Src: src + "   [inside known-finding region: " + kf.Region + "]", fx: fx, Known: kf})
+		g = tAnd(g, tNot(region))
+		src = src + "   [outside known-finding region: " + kf.Region + "]"
+	}
 	t := tImp(g, goal)
 	if t.S != "true" {
 		fx.obls = append(fx.obls, &Obligation{Name: fx.name + "/" + full, Kind: kind, Func: fx.name, Mode: fx.mode,
@@ -1037,7 +1048,7 @@ func (fx *fnExec) run() (err error) {
 			if !c.inMode(fx.mode) {
 				continue
 			}
-			fx.assume(fx.evalBool(c.E, env))
+			fx.assume(fx.evalClause(c, env))
 		}
 		for _, c := range fx.ctr.Assumes {
 			if !c.inMode(fx.mode) {
@@ -1322,7 +1333,7 @@ func (fx *fnExec) finish() {
 	env := fx.exitEnv(res)
 	fx.runHooks("return", "", env, where)
 	if p := fx.ctr.PanicsIff; p != nil && p.inMode(fx.mode) {
-		fx.oblige("panics_iff:return", "panics_iff", tNot(fx.evalBool(p.E, fx.entryEnv())), where, "normal return ==> !("+p.Src+")")
+		fx.oblige("panics_iff:return", "panics_iff", tNot(fx.evalClause(*p, fx.entryEnv())), where, "normal return ==> !("+p.Src+")")
 	}
 	for _, a := range fx.ctr.Asserts {
 		if a.At == "return" && a.C.inMode(fx.mode) {
@@ -1333,14 +1344,34 @@ func (fx *fnExec) finish() {
 		if !c.inMode(fx.mode) {
 			continue
 		}
-		fx.oblige(fmt.Sprintf("post%d%s", k+1, lbl(c)), "post", fx.evalBool(c.E, env), where, c.Src)
+		goal := fx.evalClause(c, env)
+		if sp := fx.ctr.Split; sp != nil {
+			pv, ok := fx.paramEntry[sp.Var]
+			if !ok {
+				panic(vcErr("split: no parameter %s", sp.Var))
+			}
+			pt := fx.sc(pv, "")
+			saveR := fx.curR
+			var outside []Term
+			for val := sp.Lo; val <= sp.Hi; val++ {
+				eq := tEq(pt, fx.litTo(big.NewInt(int64(val)), pt.So))
+				outside = append(outside, tNot(eq))
+				fx.obls = append(fx.obls, &Obligation{Name: fmt.Sprintf("%s/post%d%s[%s=%d]", fx.name, k+1, lbl(c), sp.Var, val), Kind: "post", Func: fx.name, Mode: fx.mode,
+					Prefix: len(fx.assumps), NDecl: len(fx.decls), Goal: tImp(tAnd(saveR, eq), goal), Where: where, Src: c.Src, fx: fx})
+			}
+			fx.obls = append(fx.obls, &Obligation{Name: fmt.Sprintf("%s/post%d%s[%s outside %d..%d]", fx.name, k+1, lbl(c), sp.Var, sp.Lo, sp.Hi), Kind: "post", Func: fx.name, Mode: fx.mode,
+				Prefix: len(fx.assumps), NDecl: len(fx.decls), Goal: tImp(tAnd(append([]Term{saveR}, outside...)...), goal), Where: where, Src: c.Src, fx: fx})
+			fx.assume(goal)
+			continue
+		}
+		fx.oblige(fmt.Sprintf("post%d%s", k+1, lbl(c)), "post", goal, where, c.Src)
 	}
 }
 
 func (fx *fnExec) panicSite(where, what string) {
 	if fx.ctr != nil && fx.ctr.PanicsIff != nil && fx.ctr.PanicsIff.inMode(fx.mode) {
 		p := fx.ctr.PanicsIff
-		fx.oblige("panics_iff:site", "site.panics_iff", fx.evalBool(p.E, fx.entryEnv()), where, what+" ==> "+p.Src)
+		fx.oblige("panics_iff:site", "site.panics_iff", fx.evalClause(*p, fx.entryEnv()), where, what+" ==> "+p.Src)
 	} else if fx.ctr != nil && fx.ctr.MayPanic {
 	} else {
 		fx.oblige("safety:panic", "safety", tFalse, where, what+" unreachable")
